@@ -385,6 +385,31 @@ def gen_callbacks(seed, tier):
             b.ops.append({"op": "rendercbs", "t": 1})
             ncb = k + 2
             ncols = 2
+        if i % 10 == 5:
+            # one registration for every slot of the documented nesting order, on a small table with a header and a
+            # separator, then two render passes: the whole order is observable in one log
+            ncolsx = rng.randint(1, 2)
+            b.ops.append({"op": "headers", "t": 1, "items": [S("h")] * ncolsx})
+            b.ops.append({"op": "rowitems", "t": 1, "items": [S("a")] * ncolsx})
+            b.rows.append({"sep": False, "n": ncolsx, "tbl": 1})
+            b.ops.append({"op": "sep", "t": 1})
+            b.rows.append({"sep": True, "n": 0, "tbl": 1})
+            b.ops.append({"op": "rowitems", "t": 1, "items": [S("b")]})
+            b.rows.append({"sep": False, "n": 1, "tbl": 1})
+            regs = [({"kind": "table", "t": 1}, tm, tg) for tm, tg in [("pre", "itself"), ("post", "itself"), ("pre", "cell"), ("render", "cell"), ("post", "cell")]]
+            for c in range(0, ncolsx + 1):
+                regs += [({"kind": "column", "t": 1, "n": c}, tm, tg) for tm, tg in [("pre", "itself"), ("post", "itself"), ("pre", "cell"), ("post", "cell")]]
+            for rr in (1, 3):
+                regs += [({"kind": "row", "r": rr}, tm, tg) for tm, tg in [("pre", "itself"), ("post", "row"), ("pre", "cell"), ("post", "cell")]]
+            regs += [({"kind": "cell", "r": 1, "c": 1}, "render", "itself"), ({"kind": "cell", "r": 3, "c": 1}, "render", "cell"),
+                     ({"kind": "hcell", "t": 1, "c": 1}, "render", "itself")]
+            rng.shuffle(regs)
+            for o, tm, tg in regs:
+                b.ops.append({"op": "regcb", "t": 1, "owner": o, "time": tm, "target": tg, "fails": 0})
+            b.ops.append({"op": "rendercbs", "t": 1})
+            b.ops.append({"op": "render", "pkg": rng.choice(["csv", "html", "text"]), "t": 1, "entry": "Render"})
+            out.append(b.ops)
+            continue
         for _ in range(rng.randint(4, 16)):
             r = rng.random()
             cells = [(j + 1, c) for j, x in enumerate(b.rows) for c in range(1, x["n"] + 1)]
